@@ -289,8 +289,28 @@ def merge_signs(toks):
     return out
 
 
+_IDENTLIKE = re.compile(r'-?[A-Za-z_][A-Za-z0-9_-]*\Z').match
+
+
 def nonspace_tokens(text):
-    return [(t[0], t[1]) for t in cssutils.tokenize2.Tokenizer().tokenize(text) if t[0] != 'S']
+    """token kinds and values without white space; 'u+a' - which the CSS 2.1 tokenizer reads as UNICODE-RANGE although in a selector
+    it is the two type selectors u and a - is split the way the selector parser reads it, so that 'u + a' written without the
+    combinator spacer compares equal (the same split is applied to both sides of every comparison)"""
+    toks = list(cssutils.tokenize2.Tokenizer().tokenize(text))
+    out = []
+    i = 0
+    while i < len(toks):
+        t = toks[i]
+        if t[0] == 'UNICODE-RANGE' and _IDENTLIKE(t[1][2:]):
+            rest = t[1][2:]
+            if i + 1 < len(toks) and toks[i + 1][0] == 'IDENT' and (toks[i + 1][2], toks[i + 1][3]) == (t[2], t[3] + len(t[1])):
+                rest += toks[i + 1][1]
+                i += 1
+            out += [('IDENT', t[1][0]), ('CHAR', '+'), ('IDENT', rest)]
+        elif t[0] != 'S':
+            out.append((t[0], t[1]))
+        i += 1
+    return out
 
 
 def check(case, ctx):
